@@ -22,6 +22,7 @@ EXPLANATION = (
     "reaches order-free consumers (membership, len, sorted, set algebra, "
     "commutative per-element updates) - list()/join()/Series/iteration "
     "with order-sensitive bodies are reported. (c) fitted or supplied "
+    "Also: worker-count parameters are only handed on (shared with C05). "
     "models are sorted by recorded fold on every path. NOT decided: "
     "bit-level reproducibility of BLAS / scikit-learn.")
 TECHNIQUE = ("effect scan + call-graph reachability + set-provenance taint "
